@@ -26,7 +26,7 @@ type modItem struct {
 	St    string `json:"st"`
 	M     string `json:"m"`
 	HK    string `json:"hk"` // how the table variable got its value: "tab", "mod" (a require), "none"
-	H     int    `json:"h"` // table identity the statement's table variable holds (0 = not statically known)
+	H     int    `json:"h"`  // table identity the statement's table variable holds (0 = not statically known)
 }
 
 type modCase struct {
